@@ -235,7 +235,7 @@ def run(ctx):
             corp = lib.corpus_lines(ctx.prop)
             if corp:
                 os.makedirs(lib.VERIF + '/evidence', exist_ok=True)
-                tmp = lib.VERIF + '/evidence/.corpus-%s.txt' % ctx.prop
+                tmp = os.environ.get('TMPDIR', '/var/tmp') + '/.corpus-%s.txt' % ctx.prop
                 open(tmp, 'w').write('\n'.join(corp) + '\n')
                 jobs.append(['-replay', tmp])
             shards, n = {'quick': (4, 40000), 'thorough': (14, 4000000)}[ctx.tier]
